@@ -8,7 +8,8 @@ From SF Require Import Base.GeomAST Base.QKernel Base.Planar Model.Boundary Mode
   Proofs.Boundary_proofs Proofs.PointOnSurface_proofs
   Model.ValidateSpec Model.PosNesting Proofs.PosNesting_proofs
   Model.BoundaryExact Proofs.BoundaryExact_proofs
-  Model.PosNesting2 Proofs.PosNesting2_proofs.
+  Model.PosNesting2 Proofs.PosNesting2_proofs
+  Model.BoundaryMod2 Proofs.BoundaryMod2_proofs.
 Import ListNotations.
 Open Scope Q_scope.
 
@@ -82,6 +83,31 @@ Print Assumptions boundary_mod2_spec.
 Example boundary_mod2_ex :
   odd_open_ends ex_star (zpt (1,1)%Z) = true /\ odd_open_ends ex_star (zpt (5,5)%Z) = false /\
   odd_open_ends (tl ex_star) (zpt (1,1)%Z) = false /\ odd_open_ends ex_star (zpt (3,0)%Z) = true.
+Proof. vm_compute. repeat split. Qed.
+
+(* The SPEC check the driver evaluates on the implementation's Boundary(g) = b for a LineString or
+   MultiLineString g of ANY size (agreement of "p in b" with "p is an end point of an odd number
+   of non-closed members" at every end point of a member and at every point of b, b made of
+   points only) decides that agreement for EVERY point of Q^2; and the model passes both checks. *)
+Theorem mod2_exact_everywhere : forall g b : geom,
+  (exists l, g = GLine l) \/ (exists ct ls, g = GMLine ct ls) ->
+  puntalb b = true -> mod2_exact g b = true ->
+  forall p, inG b p = odd_open_ends (lineal_members g) p.
+Proof. exact mod2_exact_everywhere_lemma. Qed.
+Print Assumptions mod2_exact_everywhere.
+Theorem mod2_exact_model : forall g : geom, mod2_exact g (boundary g) = true.
+Proof. exact mod2_exact_model_lemma. Qed.
+Print Assumptions mod2_exact_model.
+(* collections: every odd end point of every lineal leaf is a point of the boundary *)
+Theorem mod2_complete_model : forall g : geom, mod2_complete g (boundary g) = true.
+Proof. exact mod2_complete_model_lemma. Qed.
+Print Assumptions mod2_complete_model.
+Example mod2_exact_ex :
+  puntalb (boundary (GMLine XY ex_star)) = true /\ mod2_exact (GMLine XY ex_star) (boundary (GMLine XY ex_star)) = true /\
+  mod2_exact (GMLine XY ex_star) (GMPoint XY []) = false /\
+  mod2_exact (GMLine XY ex_star) (boundary (GMLine XY (tl ex_star))) = false /\
+  mod2_complete (GColl XY [GColl XY [GMLine XY ex_star]]) (GColl XY []) = false /\
+  mod2_complete (GColl XY [GColl XY [GMLine XY ex_star]]) (boundary (GMLine XY ex_star)) = true.
 Proof. vm_compute. repeat split. Qed.
 
 (* every point of Boundary(g) relates to g as boundary, and nothing else does: lineal *)
